@@ -111,7 +111,7 @@ def id_form_opaque(ctx, rule='C07.id-form-opaque'):
     n = 0
     owner_sites = 0
     for fn in sorted(F.fns, key=lambda g: g.path):
-        owner = fn.owner if fn.kind == 'Closure' else fn
+        owner = (fn.owner or fn) if fn.kind == 'Closure' else fn
         in_owner = bool(owner.self_adt and last_seg(owner.self_adt) == 'InnerBucket')
         if fn.trait and last_seg(fn.trait) in ('Debug', 'Clone', 'Copy', 'PartialEq', 'Eq', 'PartialOrd', 'Ord', 'Hash') and fn.self_adt and last_seg(fn.self_adt) == 'PageNodeID':
             continue        # derived impls: what matters is who calls them
@@ -483,6 +483,10 @@ def run(ctx, tier):
     results += read_via_overlay(ctx)
     results += reresolve(ctx)
     results += id_form_opaque(ctx)
+    import c08
+    results += c08.seek_searches(ctx, rule='C07.seek-searches')
+    results += c08.keys_as_bytes(ctx, rule='C07.keys-as-bytes')
+    results += c08.stack_never_emptied(ctx, rule='C07.stack-never-emptied')
     results += single_root(ctx)
     results += exact_match_used(ctx)
     results += overlay_registered(ctx)
